@@ -443,6 +443,13 @@ def _gen_value(rng, name, allow_bad):
     if allow_bad and rng.random() < 0.18:
         return rng.choice([["list", [1, 2]], ["tuple", [3, 4]], ["dict", [["a", 1]]], ["obj"],
                            ["none"]])
+    if allow_bad and rng.random() < 0.08:
+        # instances of SUBCLASSES of the transportable types: members of a (str, Enum) / (int,
+        # Enum) mix-in, a float subclass with a unit in its repr.  They are strs / ints /
+        # floats: what counts is the value, never their str() or repr()
+        if name == "G2":
+            return ["strenum", rng.choice(["tagA", "tagB", "x"])]
+        return rng.choice([["intenum", rng.choice([0, 2, 17])], ["gev", rng.choice([2.5, 40.0])]])
     if name == "G2":  # only ever compared with ==/!=, so any transportable type is fine
         r = rng.random()
         if r < 0.7:
@@ -771,7 +778,7 @@ def _burst(x, sites, prop):
     """Volume: one create-(use)-drop loop of hundreds of iterations, each with a lambda (or a
     captured value) of its own - whatever the library keeps per query, per text or per value
     fills up, wraps around or gets evicted; the history goes on afterwards."""
-    n = x.choice([64, 150, 300, 300, 600])
+    n = x.choice([64, 150, 200, 300])
     every = x.choice([1, 7, 50, 10 ** 6])
     parent = x.randrange(64)
     if prop == "C16" or x.random() < 0.25:
@@ -825,7 +832,9 @@ def _add_lifetime(x, ops, sites, prop):
     burst_at = x.randrange(len(ops) + 1) if x.random() < 0.04 else None
     for pos, op in enumerate(ops):
         if pos == burst_at:
-            out.extend(_burst(x, sites, prop))
+            b = [{**o, "burst": True} for o in _burst(x, sites, prop)]
+            b[-1]["burst_end"] = True  # the invariants are evaluated when the loop is over
+            out.extend(b)
         out.append(op)
         k = op["op"]
         if k == "derive" and "stack" not in op and x.random() < 0.25:
@@ -1931,10 +1940,14 @@ class Forest:
                 raise Violation("C04/scope", {"site": site["lam"], "emitted": _safe_unparse(lam),
                                               "free_names_left_in_query": sorted(loose)})
             for n in ast.walk(lam):
-                if isinstance(n, ast.Constant) and n.value is not None and not isinstance(
-                        n.value, (str, int, float, bool, complex, bytes)):
-                    raise Violation("C04/gate", {"site": site["lam"],
-                                                 "constant": repr(n.value)[:80]})
+                # a literal is a value of exactly one of these types: an instance of a subclass
+                # (an enum mix-in member, a numpy scalar) prints as something that is no literal,
+                # and python itself refuses to compile a Constant holding one
+                if isinstance(n, ast.Constant) and n.value is not None and type(n.value) not in (
+                        str, int, float, bool, complex, bytes):
+                    raise Violation("C04/gate", {"site": site["lam"], "what": "not a literal",
+                                                 "constant": repr(n.value)[:80],
+                                                 "type": type(n.value).__name__})
             lam_rec = {"dump": ast.dump(lam), "refs": refs, "site": k, "text": _safe_unparse(lam),
                        "flatten": fl}
         twin = None
@@ -2728,6 +2741,8 @@ class Forest:
             self.resolved.append({**op, "id": self.cur_id, **self.cur_resolved})
             if self.pending is not None:
                 raise self.pending
+            if op.get("burst") and not op.get("burst_end"):
+                continue  # inside a volume burst: judged at its end
             self.check_all()
             # calls that completed meanwhile are checked as soon as the history has them
             while checked < len(self.tasks) and self.tasks[checked]["res"] is not None:
